@@ -212,7 +212,22 @@ def simplify(case):
 LAWS = ["ties", "ties", "nonpos_ties", "noise", "peak", "negative", "const", "large", "bump", "neartie"]
 
 
+def default_k_cases(tier):
+    """StoSOO with its default k = ceil(n / ln(n)^3) for EVERY budget in a range: k + 2 rounds suffice to see
+    after how many evaluations the root is expanded."""
+    nmax = 6000 if tier == "quick" else 30000
+    out = []
+    for n in range(100, nmax + 1):
+        k = math.ceil(n / math.log(n) ** 3)
+        out.append({"algo": {"name": "StoSOO", "params": {"n": n, "k": None, "h_max": 40}}, "partition": {"cls": "BinaryPartition"},
+                    "domain": [[0.0, 1.0]], "rng": {"mode": "seed", "seed": 0}, "T": k + 2, "reward": {"law": "noise", "seed": n}})
+    return out
+
+
 def run_shard(ctx):
+    cases = default_k_cases(ctx.tier)
+    ctx.enumerate("default-k", cases, check_case,
+                  exhaustive_note="StoSOO default k for every n in 100..%d: the root must be expanded after exactly ceil(n/ln(n)^3) evaluations" % cases[-1]["algo"]["params"]["n"])
     quick = ctx.tier == "quick"
     ctx.drive("rule", gen.run_case(names=["SOO", "StoSOO", "DOO"], laws=LAWS, n_range=(100, 300) if quick else (100, 1500),
                                    script_prob=0.25, full_T_prob=0.4, T_min=3),
